@@ -346,6 +346,8 @@ class Run:
         return reqs, uniq, dis, nontriv
 
     def write_replay(self, kind, payload):
+        if getattr(self, "replaying", None):
+            return "(replay mode)"
         os.makedirs(os.path.join(REPLAY, self.pid), exist_ok=True)
         h = hashlib.sha1(json.dumps(payload, sort_keys=True).encode()).hexdigest()[:12]
         path = os.path.join(REPLAY, self.pid, "%s-%s.json" % (kind, h))
@@ -452,6 +454,18 @@ class Run:
             path = self.write_replay("obligation", payload)
             lines_out.append("VIOLATION property=%s replay=%s no-failing-input-found" % (pid, path))
             violations += 1
+        rp = getattr(self, "replaying", None)
+        if rp:
+            # replay mode: nothing is written; only the recorded failure is reported
+            if rp["kind"] == "obligation":
+                again = ring1_broken or ring2_broken or bool(build_fail)
+            else:
+                again = any(sig in rp["signatures"] for sig, _ in new_v)
+            if again:
+                print("VIOLATION property=%s replay=%s%s" % (pid, rp["path"], " no-failing-input-found" if rp["kind"] == "obligation" else ""))
+                return 1
+            print("REPLAY property=%s %s: not reproduced on the current tree" % (pid, rp["signature"] or "obligation"))
+            return 0
         self.write_evidence(r1, reqs, uniq, dis, nontriv, mine, others, known_hits, new_v, ss, errs, violations, searched, build_fail)
         for l in lines_out:
             print(l)
@@ -519,28 +533,10 @@ class Run:
         os.replace(tmp, os.path.join(EVID, self.pid + ".json"))
 
     def replay(self, path):
+        """re-decides the property on the current tree and reports whether the recorded failure is still there:
+        a recorded input (signature + case) is looked for among this run's unlisted violations (same generator,
+        same seed, so the same case is evaluated again); a recorded obligation is re-checked"""
         d = json.load(open(path))
-        okH, outH = cargo_build_hx()
-        if not okH:
-            print(outH[-2000:])
-            return 2
-        if self.cfg.get("needs_cli"):
-            cargo_build_cli()
-        lake_build(self.cfg["lean_modules"] + ["modeld"])
-        fn = self.cfg.get("replay")
-        if fn:
-            return fn(d)
-        case = d.get("case")
-        if not case:
-            print("replay file names obligations only:")
-            print(json.dumps(d.get("ring1_failing"), indent=1))
-            print(json.dumps(d.get("ring2_disagreements"), indent=1))
-            return 1
-        with tempfile.NamedTemporaryFile("w", suffix=".json", delete=False) as f:
-            json.dump(case, f)
-            p = f.name
-        rc, out, err = run_hx(["replay", self.pid, p], self.tier, self.seed)
-        os.unlink(p)
-        sys.stdout.write(out)
-        sys.stderr.write(err)
-        return rc
+        self.replaying = {"path": path, "signature": d.get("signature"), "kind": d.get("kind", "input" if d.get("case") else "obligation"),
+                          "signatures": set(d.get("signatures_in_family") or []) | ({d.get("signature")} if d.get("signature") else set())}
+        return self.execute()
